@@ -9,7 +9,8 @@ enum Trap { Getc, Out, Puts, In, Putsp, Halt }
 const TRAPS: [(Trap, u16); 6] = [(Trap::Getc, 0xF020), (Trap::Out, 0xF021), (Trap::Puts, 0xF022), (Trap::In, 0xF023), (Trap::Putsp, 0xF024), (Trap::Halt, 0xF025)];
 const REGSETS: [[u16; 8]; 3] = [[0x4000, 1, 2, 3, 4, 5, 0xFD00, 7], [0x4000, 0xFFFF, 0x8000, 0x7FFF, 0x3000, 0xFE00, 0x3800, 0x1234], [0x4000, 0x4000, 0x4001, 0, 0xFFFF, 0x00FF, 0xFDFF, 0x3000]];
 const CCS: [u16; 3] = [0x8001, 0x8002, 0x8004];
-const PUTS_SYM: [u16; 5] = [0x0041, 0x00FF, 0x0001, 0x0180, 0x4100];
+/// (words with and without bit 15, with a zero low byte, with a non-zero high byte: PUTS prints the low byte of every word up to the first x0000 word)
+const PUTS_SYM: [u16; 7] = [0x0041, 0x00FF, 0x0001, 0x0180, 0x4100, 0x8069, 0xFF42];
 const PUTSP_SYM: [u8; 4] = [0x01, 0x41, 0x80, 0xFF];
 const KB_SYM: [u8; 5] = [0x00, 0x41, 0xFF, 0x0D, 0x0A];
 const STR_AT: u16 = 0x4000;
@@ -103,7 +104,7 @@ fn cases(ctx: &Ctx) -> Vec<Case> {
             v.push(Case { poison: 0, irq: None, trap: Trap::Out, word: 0xF021, r0_low: b, string_words: vec![], expected_out: vec![b], kb, regset, cc, real, ignore_priv });
         } }
         // PUTS: every string of <=3 (thorough 4) symbols
-        for si in 0..seq_count(5, ctx.pick(3, 4)) { let s = seq(&PUTS_SYM, si);
+        for si in 0..seq_count(7, ctx.pick(3, 4)) { let s = seq(&PUTS_SYM, si);
             v.push(Case { poison: 0, irq: None, trap: Trap::Puts, word: 0xF022, r0_low: 0, expected_out: s.iter().map(|w| *w as u8).collect(), string_words: s, kb: vec![0x41], regset, cc, real, ignore_priv });
         }
         // PUTSP: every byte string of <=4 (thorough 5) symbols, packed low byte first
